@@ -4,6 +4,7 @@ import (
 	"bufio"
 	"bytes"
 	"encoding/hex"
+	"fmt"
 	"go/ast"
 	"go/parser"
 	"go/token"
@@ -12,6 +13,8 @@ import (
 	"sort"
 	"strconv"
 	"strings"
+
+	li "github.com/corazawaf/libinjection-go"
 )
 
 // ---------------- corpus ----------------
@@ -433,6 +436,47 @@ func foldShapes(emit func(string)) {
 	}
 }
 
+// tablePhrases: every multi-word key of the keyword table (the phrases merge() builds), alone
+// and in context, with its words also separated by other white space, and every pair
+// (first word of a phrase, second word of another phrase): merge must find exactly the listed ones.
+func tablePhrases(emit func(string)) {
+	kw := li.VerifSQLKeywords()
+	var phrases []string
+	firsts, seconds := map[string]bool{}, map[string]bool{}
+	for k := range kw {
+		if i := strings.IndexByte(k, ' '); i > 0 && !strings.HasPrefix(k, "0") {
+			phrases = append(phrases, k)
+			firsts[k[:i]] = true
+			seconds[k[i+1:]] = true
+		}
+	}
+	sort.Strings(phrases)
+	for _, p := range phrases {
+		lp := strings.ToLower(p)
+		for _, f := range []string{"%s", "1 %s 1", "%s(1)", "x' %s 'y", "1 %s", "%s 1", "@v %s foo", "1;%s x"} {
+			emit(fmt.Sprintf(f, p))
+			emit(fmt.Sprintf(f, lp))
+		}
+		emit("1 " + strings.Replace(lp, " ", "\t", 1) + " 1")
+		emit("1 " + strings.Replace(lp, " ", "  ", 1) + " 1")
+		emit("1 " + strings.Replace(lp, " ", "/**/", 1) + " 1")
+	}
+	var fs, ss []string
+	for f := range firsts {
+		fs = append(fs, f)
+	}
+	for x := range seconds {
+		ss = append(ss, x)
+	}
+	sort.Strings(fs)
+	sort.Strings(ss)
+	for _, f := range fs {
+		for _, x := range ss {
+			emit("1 " + strings.ToLower(f+" "+x) + " 1")
+		}
+	}
+}
+
 func sqlAll(c *corpus, r *rng, tier string, scale int) *inputSet {
 	z := tierSizes(tier, scale)
 	s := newInputSet()
@@ -459,6 +503,7 @@ func sqlAll(c *corpus, r *rng, tier string, scale int) *inputSet {
 	rec(nil, z.exhDepthLex)
 	whitelistShapes(func(x string) { s.add("whitelist-shapes", x) })
 	foldShapes(func(x string) { s.add("fold-shapes", x) })
+	tablePhrases(func(x string) { s.add("table-phrases", x) })
 	for i := 0; i < z.randBytes; i++ {
 		s.add("random-bytes", randomSeq(r, sqlAlphabet, 3, 9))
 	}
